@@ -14,6 +14,9 @@ if [ -d "$wt" ]; then
 fi
 [ -z "$(git -C /repo status --short)" ] || { echo "/repo not clean"; exit 2; }
 git -C /repo apply "$V/seeded/$sid/patch.diff" || { echo "patch does not apply to /repo HEAD"; exit 3; }
+# evidence files committed in /verif must come from runs on the unchanged tree: keep the current one aside
+cp "$V/evidence/$pid.json" "$V/.work/evidence_$pid.keep" 2>/dev/null
 (cd $V && ./check "$pid" --tier quick > "$V/.work/seed_$sid.log" 2>&1; echo "check rc=$?")
+[ -f "$V/.work/evidence_$pid.keep" ] && mv "$V/.work/evidence_$pid.keep" "$V/evidence/$pid.json"
 git -C /repo checkout -- . ; git -C /repo clean -fdq
 grep -E "VIOLATION|no longer checks|violation:|KNOWN" "$V/.work/seed_$sid.log" | cut -c1-400 | head -8
